@@ -9,7 +9,7 @@
 // struct; L1 harnesses in fdl_token_ring.rs relate model and real code).
 
 use super::*;
-use crate::fdl::token_ring::verif::{any_model, from_model, ring_inv, to_model, MLas, Model};
+use crate::fdl::token_ring::verif::{any_las_state, any_model, from_model, las_of, to_model, MLas, Model};
 use crate::fdl::{FdlApplication, Parameters};
 use crate::verif_support::*;
 
@@ -46,6 +46,15 @@ pub(crate) fn any_instant() -> Inst {
     Inst::from_micros(t)
 }
 
+/// Ring view as the station logic sees it: LAS state, NS, PS (the LAS bits themselves are only
+/// read and written inside TokenRing).
+pub(crate) fn any_ring_view(ts: u8) -> Model {
+    let ns: u8 = kani::any();
+    let ps: u8 = kani::any();
+    kani::assume(ns <= 125 && ps <= 125);
+    Model { las: 0, state: any_las_state(), ts, ns, ps }
+}
+
 pub(crate) fn any_gap_state(p: &Parameters) -> GapState {
     if kani::any() {
         let rotation_count: u8 = kani::any();
@@ -79,7 +88,7 @@ pub(crate) fn any_opt_addr() -> Option<u8> {
 /// Station in the given state, everything else symbolic.  `napps` = number of applications the
 /// station is polled with (bounds `next_application`).
 pub(crate) fn any_station(p: Parameters, state: State, napps: usize) -> FdlActiveStation {
-    let ring = any_model(p.address);
+    let ring = any_ring_view(p.address);
     let next_application: usize = kani::any();
     kani::assume(next_application < napps || (napps == 0 && next_application == 0));
     let pending_bytes: usize = kani::any();
@@ -106,7 +115,9 @@ pub(crate) fn inv_fdl(s: &FdlActiveStation, napps: usize) -> bool {
         && p.highest_station_address <= 126
         && p.gap_wait_rotations >= 1
         && p.gap_wait_rotations <= 100;
-    let ring_ok = ring_inv(&s.token_ring) && s.token_ring.this_station() == p.address;
+    // NS/PS being the cyclic neighbours of TS in the LAS is TokenRing's own invariant (L1, private
+    // fields only written by its methods); the station logic only needs valid addresses.
+    let ring_ok = s.token_ring.this_station() == p.address && s.token_ring.next_station() <= 125 && s.token_ring.previous_station() <= 125;
     let gap_ok = match s.gap_state {
         GapState::Waiting { rotation_count } => rotation_count <= p.gap_wait_rotations + 1,
         GapState::DoPoll { current_address } => current_address < p.highest_station_address,
@@ -123,7 +134,7 @@ pub(crate) fn inv_fdl(s: &FdlActiveStation, napps: usize) -> bool {
         State::ClaimToken { step: ClaimTokenStep::ScanAwaitResponse { address } } => polled(*address),
         State::ClaimToken { .. } => true,
         State::PassToken { .. } => true,
-        State::CheckTokenPass { .. } => true,
+        State::CheckTokenPass { .. } => s.token_ring.next_station() != p.address,
         State::AwaitStatusResponse { address } => polled(*address),
     };
     let conn_ok = match s.connectivity_state {
@@ -188,4 +199,592 @@ fn c12_gap_lemma() {
             kani::cover!(current == ns && ns == hsa - 1 && ns > ts, "cover: successor discovered at HSA-1 ends the sweep");
         }
     }
+}
+
+
+// ==========================================================================================
+// one-step machinery
+// ==========================================================================================
+
+/// Telegram-level PHY used by the step harnesses: up to 2 buffered telegrams (payload <= 3
+/// bytes) plus a tail, 16-byte transmit buffer.
+pub(crate) type Phy = TPhy<2, 3, 16>;
+
+pub(crate) const BIT_US: u64 = 1_000_000 / RATE; // 2 us per bit at the harness baud rate
+pub(crate) const T33_US: i64 = (33 * BIT_US) as i64;
+pub(crate) const TSLOT_US: i64 = (SLOT_BITS as u64 * BIT_US) as i64;
+
+pub(crate) fn tto_us(ts: u8) -> i64 {
+    TSLOT_US * (6 + 2 * ts as i64)
+}
+
+// ---- abstract TokenRing for the station-level harnesses ---------------------------------------
+//
+// The three mutating TokenRing methods the station calls are replaced by stubs that (1) record
+// the call and (2) leave the ring in an arbitrary new view, constrained only by what the L1
+// lemmas in fdl_token_ring.rs prove about the real method (invalid addresses are ignored;
+// set_next_station(a) makes a the successor; remove_station(a) never leaves a as successor;
+// neither of the latter two touches the LAS state).  The station logic is thereby checked for
+// EVERY ring evolution, and "the ring view follows exactly the witnessed passes" becomes "the
+// station reports exactly these passes to TokenRing, in this order".
+
+#[derive(Clone, Copy, PartialEq, Eq)]
+pub(crate) struct RingCall {
+    /// 1 witness_token_pass(a, b), 2 set_next_station(a), 3 remove_station(a)
+    pub kind: u8,
+    pub a: u8,
+    pub b: u8,
+}
+
+#[derive(Clone, Copy, PartialEq, Eq)]
+pub(crate) struct RingView {
+    pub state: MLas,
+    pub ns: u8,
+    pub ps: u8,
+}
+
+pub(crate) const MAX_CALLS: usize = 4;
+pub(crate) static mut RING_CALLS: [RingCall; MAX_CALLS] = [RingCall { kind: 0, a: 0, b: 0 }; MAX_CALLS];
+pub(crate) static mut RING_POST: [RingView; MAX_CALLS] = [RingView { state: MLas::Uninitialized, ns: 0, ps: 0 }; MAX_CALLS];
+pub(crate) static mut RING_N: usize = 0;
+
+pub(crate) fn view_of(r: &crate::fdl::TokenRing) -> RingView {
+    let m = to_model(r);
+    RingView { state: m.state, ns: m.ns, ps: m.ps }
+}
+
+fn record(r: &mut crate::fdl::TokenRing, call: RingCall, new: RingView) {
+    let m = Model { las: las_of(r), state: new.state, ts: r.this_station(), ns: new.ns, ps: new.ps };
+    *r = from_model(&m);
+    unsafe {
+        assert!(RING_N < MAX_CALLS, "harness: more TokenRing calls in one poll than the log holds");
+        RING_CALLS[RING_N] = call;
+        RING_POST[RING_N] = new;
+        RING_N += 1;
+    }
+}
+
+fn any_view() -> RingView {
+    let ns: u8 = kani::any();
+    let ps: u8 = kani::any();
+    kani::assume(ns <= 125 && ps <= 125);
+    RingView { state: any_las_state(), ns, ps }
+}
+
+pub(crate) fn abs_witness_token_pass(r: &mut crate::fdl::TokenRing, sa: crate::Address, da: crate::Address) {
+    let new = if sa > 125 || da > 125 { view_of(r) } else { any_view() };
+    record(r, RingCall { kind: 1, a: sa, b: da }, new);
+}
+
+pub(crate) fn abs_set_next_station(r: &mut crate::fdl::TokenRing, address: crate::Address) {
+    let old = view_of(r);
+    let mut new = any_view();
+    new.state = old.state;
+    kani::assume(new.ns == address || address > 125);
+    record(r, RingCall { kind: 2, a: address, b: 0 }, new);
+}
+
+pub(crate) fn abs_remove_station(r: &mut crate::fdl::TokenRing, address: crate::Address) {
+    let old = view_of(r);
+    let mut new = any_view();
+    new.state = old.state;
+    kani::assume(new.ns != address || address == r.this_station());
+    record(r, RingCall { kind: 3, a: address, b: 0 }, new);
+}
+
+pub(crate) fn ring_calls() -> usize {
+    unsafe { RING_N }
+}
+pub(crate) fn ring_call(i: usize) -> RingCall {
+    unsafe { RING_CALLS[i] }
+}
+pub(crate) fn ring_post(i: usize) -> RingView {
+    unsafe { RING_POST[i] }
+}
+
+macro_rules! l2_harness {
+    ($(#[$m:meta])* fn $name:ident() $body:block) => {
+        #[kani::proof]
+        #[kani::stub(crate::fdl::token_ring::TokenRing::witness_token_pass, crate::fdl::active::verif::abs_witness_token_pass)]
+        #[kani::stub(crate::fdl::token_ring::TokenRing::set_next_station, crate::fdl::active::verif::abs_set_next_station)]
+        #[kani::stub(crate::fdl::token_ring::TokenRing::remove_station, crate::fdl::active::verif::abs_remove_station)]
+        #[kani::stub(log::__private_api::loc, crate::verif_support::log_loc_stub)]
+        $(#[$m])*
+        fn $name() $body
+    };
+}
+
+fn logging(on: bool) {
+    if on {
+        log::set_max_level(log::LevelFilter::Trace);
+    }
+}
+
+#[derive(Clone, Copy)]
+pub(crate) struct Pre {
+    pub lba: Option<Inst>,
+    pub pending_bytes: usize,
+    pub ring: RingView,
+    pub gap: GapState,
+    pub last_token_time: Inst,
+    pub end_hold: Inst,
+    pub next_app: usize,
+    pub phy_pending: usize,
+    pub phy_transmitting: bool,
+    pub ts: u8,
+    pub hsa: u8,
+    pub gap_wait: u8,
+}
+
+pub(crate) fn snapshot(s: &FdlActiveStation, phy: &Phy) -> Pre {
+    Pre {
+        lba: s.last_bus_activity,
+        pending_bytes: s.pending_bytes,
+        ring: view_of(&s.token_ring),
+        gap: s.gap_state,
+        last_token_time: s.last_token_time,
+        end_hold: s.end_token_hold_time,
+        next_app: s.next_application,
+        phy_pending: phy.pending(),
+        phy_transmitting: phy.transmitting,
+        ts: s.p.address,
+        hsa: s.p.highest_station_address,
+        gap_wait: s.p.gap_wait_rotations,
+    }
+}
+
+impl Pre {
+    /// The station does nothing in this poll: a transmission is (believed to be) in progress.
+    pub fn busy(&self, now: Inst) -> bool {
+        self.phy_transmitting || self.lba.map(|l| now <= l).unwrap_or(false)
+    }
+    pub fn new_bytes(&self) -> bool {
+        self.phy_pending > self.pending_bytes
+    }
+    /// End of the last bus activity as the station sees it when it decides what to do.
+    pub fn lba_eff(&self, now: Inst) -> Inst {
+        if self.new_bytes() {
+            now
+        } else {
+            self.lba.unwrap_or(now)
+        }
+    }
+    pub fn silence_us(&self, now: Inst) -> i64 {
+        now.total_micros() - self.lba_eff(now).total_micros()
+    }
+    pub fn pause_over(&self, now: Inst) -> bool {
+        self.silence_us(now) > T33_US
+    }
+    pub fn slot_expired(&self, now: Inst) -> bool {
+        self.silence_us(now) > TSLOT_US
+    }
+    pub fn token_lost(&self, now: Inst) -> bool {
+        self.silence_us(now) >= tto_us(self.ts)
+    }
+}
+
+#[derive(Clone, PartialEq, Eq)]
+pub(crate) enum Sent {
+    Nothing,
+    Token { da: u8, sa: u8 },
+    Data(crate::fdl::DataTelegramHeader, usize),
+    Other,
+}
+
+pub(crate) fn sent(phy: &Phy) -> Sent {
+    if phy.tx_calls == 0 {
+        return Sent::Nothing;
+    }
+    match crate::fdl::Telegram::deserialize(&phy.tx[..phy.tx_len]) {
+        Some(Ok((crate::fdl::Telegram::Token(t), n))) if n == phy.tx_len => Sent::Token { da: t.da, sa: t.sa },
+        Some(Ok((crate::fdl::Telegram::Data(d), n))) if n == phy.tx_len => Sent::Data(d.h.clone(), d.pdu.len()),
+        _ => Sent::Other,
+    }
+}
+
+pub(crate) fn is_status_request(s: &Sent, da: u8, sa: u8) -> bool {
+    match s {
+        Sent::Data(h, 0) => {
+            h.da == da && h.sa == sa && h.dsap.is_none() && h.ssap.is_none()
+                && h.fc == crate::fdl::FunctionCode::Request { fcb: crate::fdl::FrameCountBit::Inactive, req: crate::fdl::RequestType::FdlStatus }
+        }
+        _ => false,
+    }
+}
+
+pub(crate) fn is_status_response(s: &Sent, da: u8, sa: u8, state: crate::fdl::ResponseState) -> bool {
+    match s {
+        Sent::Data(h, 0) => {
+            h.da == da && h.sa == sa && h.dsap.is_none() && h.ssap.is_none()
+                && h.fc == crate::fdl::FunctionCode::Response { state, status: crate::fdl::ResponseStatus::Ok }
+        }
+        _ => false,
+    }
+}
+
+/// Obligations every poll has to meet whatever the state (C01 timing/bookkeeping, invariant).
+pub(crate) fn universal(pre: &Pre, st: &FdlActiveStation, phy: &Phy, now: Inst, napps: usize) {
+    assert!(phy.tx_calls <= 1, "C01/one-tx: at most one transmission is started per poll");
+    if pre.busy(now) {
+        assert!(phy.tx_calls == 0 && phy.rx_calls == 0, "C01/busy: while a transmission is in progress the station neither transmits nor receives");
+    }
+    if phy.tx_calls == 1 {
+        let l = pre.lba;
+        assert!(l.is_some(), "C01/sync-pause: nothing is sent before any bus activity reference exists");
+        let idle_us = now.total_micros() - l.unwrap().total_micros();
+        assert!(idle_us > 0, "C01/sync-pause: a telegram starts after the end of the previous one");
+        // exact arithmetic, up to the 1 us clock resolution: idle * rate >= 33 bit - 1 us
+        assert!((idle_us as u64) * RATE + RATE >= 33_000_000, "C01/sync-pause: every telegram starts at least 33 bit times after the end of the previous bus activity");
+        assert!(!pre.new_bytes(), "C01/idle-after-rx: nothing is sent in a poll in which newly received bytes became visible");
+        let want = now.total_micros() + (11 * phy.tx_len as u64 * 1_000_000 / RATE) as i64;
+        assert!(st.last_bus_activity.map(|t| t.total_micros()) == Some(want), "C01/tx-accounted: the own transmission is accounted as bus activity until its last bit");
+    } else if !pre.busy(now) && pre.new_bytes() && st.connectivity_state == ConnectivityState::Online {
+        assert!(st.last_bus_activity.map(|t| t >= now).unwrap_or(false), "C01/rx-accounted: newly visible received bytes count as bus activity now");
+    }
+    assert!(inv_fdl(st, napps), "C05/inv: the representation invariant of the station is preserved by poll()");
+}
+
+/// Reference rules for a ring member that hears telegrams while not holding the token
+/// (ActiveIdle; also the continuation of CheckTokenPass once anything is heard).
+#[derive(Clone, Copy, PartialEq, Eq)]
+pub(crate) struct IdleRef {
+    pub status_request: Option<u8>,
+    pub new_previous: Option<u8>,
+    pub collisions: u8,
+    pub ring: RingView,
+    /// 0 = still ActiveIdle, 1 = back to ListenToken (address collision), 2 = token accepted
+    pub outcome: u8,
+    /// TokenRing calls expected so far
+    pub calls: usize,
+    pub calls_ok: bool,
+}
+
+impl IdleRef {
+    fn expect_witness(&mut self, sa: u8, da: u8) {
+        if self.calls < ring_calls() {
+            self.calls_ok = self.calls_ok && ring_call(self.calls) == RingCall { kind: 1, a: sa, b: da };
+            self.ring = ring_post(self.calls);
+        } else {
+            self.calls_ok = false;
+        }
+        self.calls += 1;
+    }
+
+    pub fn hear(&mut self, t: &STel<3>, is_last: bool, ts: u8) {
+        if self.outcome == 1 {
+            return; // left the ring in this poll: nothing more is evaluated
+        }
+        if t.is_token() {
+            if t.sa == ts {
+                // somebody else uses our address
+                self.collisions += 1;
+                if self.collisions >= 2 {
+                    self.outcome = 1;
+                }
+                return;
+            }
+            self.collisions = 0;
+            if t.da != ts || !is_last {
+                self.expect_witness(t.sa, t.da);
+            } else if t.sa == self.ring.ps {
+                self.outcome = 2;
+            } else if self.new_previous == Some(t.sa) {
+                self.expect_witness(t.sa, t.da);
+                self.outcome = 2;
+            } else {
+                self.new_previous = Some(t.sa);
+            }
+        } else if t.is_status_request_for(ts) && is_last {
+            self.status_request = Some(t.sa);
+        }
+    }
+
+    /// Compare the station after the poll with the reference outcome.
+    pub fn check(&self, st: &FdlActiveStation, now: Inst) {
+        assert!(self.calls_ok && self.calls == ring_calls(), "C02/las: the ring view is told exactly the witnessed token passes, in order");
+        match self.outcome {
+            1 => assert!(st.state == State::ListenToken { status_request: None, collision_count: 0 }, "C06/collision: two consecutive tokens carrying the own address as source make a ring member leave the ring and listen again"),
+            2 => {
+                assert!(
+                    st.state == State::UseToken { data: UseTokenData { token_time: now, first_app: None }, first_cycle_done: false },
+                    "C11/accept: a token addressed to this station is accepted from the registered predecessor, or from another station on its second offer"
+                );
+            }
+            _ => assert!(
+                st.state == State::ActiveIdle { status_request: self.status_request, new_previous_station: self.new_previous, collision_count: self.collisions },
+                "C11/accept: without an acceptable token the station stays idle, remembering a stranger's first offer and a status request addressed to it"
+            ),
+        }
+    }
+}
+
+fn run_idle_ref(start: IdleRef, tel: &[STel<3>; 2], n: usize, tail: Tail, ts: u8) -> IdleRef {
+    let mut r = start;
+    let mut i = 0;
+    while i < n {
+        let is_last = i + 1 == n && tail == Tail::Empty;
+        r.hear(&tel[i], is_last, ts);
+        i += 1;
+    }
+    r
+}
+
+fn reset_ring_log() {
+    unsafe {
+        RING_N = 0;
+    }
+}
+
+// ==========================================================================================
+// ListenToken
+// ==========================================================================================
+
+fn step_listen_token(log_on: bool) {
+    logging(log_on);
+    reset_ring_log();
+    let p = any_params();
+    let sr = any_opt_addr();
+    let cc: u8 = kani::any();
+    let mut st = any_station(p, State::ListenToken { status_request: sr, collision_count: cc }, 1);
+    kani::assume(inv_fdl(&st, 1));
+    let mut phy = Phy::any();
+    let now = any_instant();
+    let pre = snapshot(&st, &phy);
+    let ts = pre.ts;
+    let tel = phy.tel;
+    let (n, tail) = (phy.n, phy.tail);
+
+    st.poll(now, &mut phy, &mut ());
+
+    universal(&pre, &st, &phy, now, 1);
+    let s = sent(&phy);
+    if pre.busy(now) {
+        assert!(st.state == State::ListenToken { status_request: sr, collision_count: cc } && ring_calls() == 0, "C01/busy: nothing changes while a transmission is in progress");
+        return;
+    }
+    if pre.token_lost(now) {
+        // C06(b): a silent bus for the station's time-out ends in a claim
+        assert!(s == Sent::Token { da: ts, sa: ts }, "C06/claim: after its token-lost time-out of silence the station claims the token with a token telegram to itself");
+        assert!(st.state == State::ClaimToken { step: ClaimTokenStep::SecondToken }, "C06/claim: the claim continues with the second token telegram");
+        assert!(view_of(&st.token_ring).state == MLas::Valid, "C02/claim: a claiming station regards its ring view as valid");
+        assert!(st.gap_state == GapState::DoPoll { current_address: ts }, "C12/claim-scan: after a claim the whole GAP is scanned starting behind the own address");
+        kani::cover!(sr.is_some(), "cover: claim wins over a pending status reply");
+        return;
+    }
+    assert!(!st.state.have_token(), "C11/listen-never-accepts: a listening station never becomes token holder except by claiming after its time-out");
+    assert!(!matches!(s, Sent::Token { .. }), "C01/role: a listening station sends no token unless it claims after its time-out");
+    if let Some(src) = sr {
+        if pre.pause_over(now) {
+            let ready = pre.ring.state == MLas::Valid;
+            let want = if ready && src == pre.ring.ps { crate::fdl::ResponseState::MasterWithoutToken } else { crate::fdl::ResponseState::MasterNotReady };
+            assert!(is_status_response(&s, src, ts, want), "C12/status-reply: a listening station answers the requester: 'ready' only with a valid ring view and only to its predecessor, else 'not ready'");
+            if ready {
+                assert!(st.state == State::ActiveIdle { status_request: None, new_previous_station: None, collision_count: 0 }, "C02/join: having answered with a valid ring view the station waits for the token as ring member");
+            } else {
+                assert!(st.state == State::ListenToken { status_request: None, collision_count: cc }, "C12/status-reply: the request is answered once");
+            }
+            kani::cover!(ready && src == pre.ring.ps, "cover: 'ready' reply to the predecessor");
+            kani::cover!(ready && src != pre.ring.ps, "cover: 'not ready' to a stranger although the ring view is valid");
+        } else {
+            assert!(s == Sent::Nothing, "C01/sync-pause: the reply waits for the synchronisation pause");
+            assert!(st.state == State::ListenToken { status_request: sr, collision_count: cc }, "C12/status-reply: the pending request is kept");
+        }
+        assert!(ring_calls() == 0, "C02/las: answering a request does not change the ring view");
+        return;
+    }
+    // hearing telegrams
+    assert!(s == Sent::Nothing, "C01/role: a listening station transmits only replies and claims");
+    let mut want_sr = None;
+    let mut want_cc = cc;
+    let mut offline = false;
+    let mut calls = 0usize;
+    let mut calls_ok = true;
+    let mut i = 0;
+    while i < n {
+        let t = &tel[i];
+        let is_last = i + 1 == n && tail == Tail::Empty;
+        if !offline {
+            if t.source() == Some(ts) {
+                want_cc += 1;
+                if want_cc >= 2 {
+                    offline = true;
+                }
+            } else if t.is_token() {
+                calls_ok = calls_ok && calls < ring_calls() && ring_call(calls) == RingCall { kind: 1, a: t.sa, b: t.da };
+                calls += 1;
+            } else if t.is_status_request_for(ts) && is_last {
+                want_sr = Some(t.sa);
+            }
+        }
+        i += 1;
+    }
+    if offline {
+        assert!(st.state == State::Offline && st.connectivity_state == ConnectivityState::Offline, "C06/collision: hearing the own address as source twice while listening takes the station offline");
+        kani::cover!(true, "cover: address collision while listening");
+    } else {
+        assert!(st.state == State::ListenToken { status_request: want_sr, collision_count: want_cc }, "C12/status-latch: a status request is latched iff it is addressed to this station and is the last buffered telegram; collisions are counted");
+        assert!(calls_ok && calls == ring_calls(), "C02/las: the ring view is told exactly the witnessed token passes, in order");
+        kani::cover!(want_sr.is_some(), "cover: status request latched");
+        kani::cover!(calls == 2, "cover: two token passes witnessed in one poll");
+    }
+}
+
+l2_harness! {
+    #[kani::unwind(5)]
+    fn l2_listen_token() { step_listen_token(false) }
+}
+
+l2_harness! {
+    #[kani::unwind(5)]
+    fn l2_listen_token_log() { step_listen_token(true) }
+}
+
+// ==========================================================================================
+// ActiveIdle
+// ==========================================================================================
+
+fn step_active_idle(log_on: bool) {
+    logging(log_on);
+    reset_ring_log();
+    let p = any_params();
+    let sr = any_opt_addr();
+    let np = any_opt_addr();
+    let cc: u8 = kani::any();
+    let mut st = any_station(p, State::ActiveIdle { status_request: sr, new_previous_station: np, collision_count: cc }, 1);
+    kani::assume(inv_fdl(&st, 1));
+    let mut phy = Phy::any();
+    let now = any_instant();
+    let pre = snapshot(&st, &phy);
+    let ts = pre.ts;
+    let tel = phy.tel;
+    let (n, tail) = (phy.n, phy.tail);
+
+    st.poll(now, &mut phy, &mut ());
+
+    universal(&pre, &st, &phy, now, 1);
+    let s = sent(&phy);
+    if pre.busy(now) {
+        assert!(st.state == State::ActiveIdle { status_request: sr, new_previous_station: np, collision_count: cc } && ring_calls() == 0, "C01/busy: nothing changes while a transmission is in progress");
+        return;
+    }
+    if pre.token_lost(now) {
+        assert!(s == Sent::Token { da: ts, sa: ts }, "C06/claim: after its token-lost time-out of silence the station claims the token with a token telegram to itself");
+        assert!(st.state == State::ClaimToken { step: ClaimTokenStep::SecondToken }, "C06/claim: the claim continues with the second token telegram");
+        assert!(st.gap_state == GapState::DoPoll { current_address: ts }, "C12/claim-scan: after a claim the whole GAP is scanned starting behind the own address");
+        return;
+    }
+    assert!(!matches!(s, Sent::Token { .. }), "C01/role: an idle ring member sends no token unless it claims after its time-out");
+    if let Some(src) = sr {
+        if pre.pause_over(now) {
+            assert!(is_status_response(&s, src, ts, crate::fdl::ResponseState::MasterInRing), "C12/status-reply: a ring member answers the requester with 'in ring'");
+            assert!(st.state == State::ActiveIdle { status_request: None, new_previous_station: np, collision_count: cc }, "C12/status-reply: the request is answered once");
+            kani::cover!(true, "cover: 'in ring' reply");
+        } else {
+            assert!(s == Sent::Nothing, "C01/sync-pause: the reply waits for the synchronisation pause");
+            assert!(st.state == State::ActiveIdle { status_request: sr, new_previous_station: np, collision_count: cc }, "C12/status-reply: the pending request is kept");
+        }
+        assert!(ring_calls() == 0, "C02/las: answering a request does not change the ring view");
+        return;
+    }
+    assert!(s == Sent::Nothing, "C01/role: an idle ring member transmits only replies and claims");
+    let start = IdleRef { status_request: None, new_previous: np, collisions: cc, ring: pre.ring, outcome: 0, calls: 0, calls_ok: true };
+    let r = run_idle_ref(start, &tel, n, tail, ts);
+    r.check(&st, now);
+    kani::cover!(r.outcome == 2 && n == 1, "cover: token accepted from the predecessor");
+    kani::cover!(r.outcome == 2 && np.is_some() && tel[0].sa != pre.ring.ps && n == 1, "cover: token accepted from a stranger on the second offer");
+    kani::cover!(r.outcome == 0 && r.new_previous != np, "cover: stranger's first offer remembered");
+    kani::cover!(r.outcome == 1, "cover: address collision makes the member leave the ring");
+    kani::cover!(r.outcome == 2 && n == 2, "cover: witnessed pass followed by an accepted token in one poll");
+}
+
+l2_harness! {
+    #[kani::unwind(5)]
+    fn l2_active_idle() { step_active_idle(false) }
+}
+
+l2_harness! {
+    #[kani::unwind(5)]
+    fn l2_active_idle_log() { step_active_idle(true) }
+}
+
+// ==========================================================================================
+// CheckTokenPass
+// ==========================================================================================
+
+fn step_check_token_pass(log_on: bool) {
+    logging(log_on);
+    reset_ring_log();
+    let p = any_params();
+    let attempt = any_attempt();
+    let mut st = any_station(p, State::CheckTokenPass { attempt }, 1);
+    kani::assume(inv_fdl(&st, 1));
+    let mut phy = Phy::any();
+    let now = any_instant();
+    let pre = snapshot(&st, &phy);
+    let ts = pre.ts;
+    let tel = phy.tel;
+    let (n, tail) = (phy.n, phy.tail);
+
+    st.poll(now, &mut phy, &mut ());
+
+    universal(&pre, &st, &phy, now, 1);
+    let s = sent(&phy);
+    if pre.busy(now) {
+        assert!(st.state == State::CheckTokenPass { attempt } && ring_calls() == 0, "C01/busy: nothing changes while a transmission is in progress");
+        return;
+    }
+    if pre.new_bytes() {
+        // (i) something is being heard: no retransmission and no removal in this poll
+        assert!(s == Sent::Nothing, "C11/heard-no-retry: while new bytes are arriving the token is not repeated");
+        assert!(ring_calls() == 0 || ring_call(0).kind != 3, "C11/never-remove-heard: a successor that is being heard is not removed");
+    }
+    if pre.slot_expired(now) {
+        // nothing heard for a slot time: repeat the pass (twice), then drop the successor
+        let (want_ns, want_attempt, removed) = match attempt {
+            PassTokenAttempt::First => (pre.ring.ns, PassTokenAttempt::Second, false),
+            PassTokenAttempt::Second => (pre.ring.ns, PassTokenAttempt::Third, false),
+            PassTokenAttempt::Third => {
+                assert!(ring_calls() >= 1 && ring_call(0) == RingCall { kind: 3, a: pre.ring.ns, b: 0 }, "C11/remove-silent: after the third unanswered pass exactly the silent successor is removed from the ring view");
+                (ring_post(0).ns, PassTokenAttempt::First, true)
+            }
+        };
+        if !removed {
+            assert!(ring_calls() == 0 || ring_call(0).kind != 3, "C11/never-remove-early: the successor is not removed before the third unanswered pass");
+        }
+        assert!(s == Sent::Token { da: want_ns, sa: ts }, "C11/retry: the pass is repeated to the same successor (at most twice), then goes to the next station");
+        let k = if removed { 1 } else { 0 };
+        assert!(ring_calls() == k + 1 && ring_call(k) == RingCall { kind: 1, a: ts, b: want_ns }, "C02/las: the own token pass is recorded in the ring view");
+        let ns_after = ring_post(k).ns;
+        if ns_after == ts {
+            assert!(st.state == State::UseToken { data: UseTokenData { token_time: now, first_app: None }, first_cycle_done: false }, "C11/alone: a station that is alone keeps the token");
+        } else {
+            assert!(st.state == State::CheckTokenPass { attempt: want_attempt }, "C11/retry: each repetition is supervised again, counting attempts; a new successor starts at the first attempt");
+        }
+        kani::cover!(removed && ns_after == ts, "cover: last other station removed, token kept");
+        kani::cover!(removed && ns_after != ts, "cover: silent successor removed, token to the next station");
+        kani::cover!(attempt == PassTokenAttempt::First, "cover: first repetition");
+        return;
+    }
+    assert!(s == Sent::Nothing, "C11/supervise: within the slot time the station only listens");
+    if n == 0 {
+        assert!(st.state == State::CheckTokenPass { attempt } && ring_calls() == 0, "C11/supervise: nothing heard, nothing changes");
+        return;
+    }
+    // (ii) anything heard: the pass succeeded (or somebody else is active): become an idle member
+    let start = IdleRef { status_request: None, new_previous: None, collisions: 0, ring: pre.ring, outcome: 0, calls: 0, calls_ok: true };
+    let r = run_idle_ref(start, &tel, n, tail, ts);
+    r.check(&st, now);
+    assert!(ring_calls() == 0 || ring_call(0).kind != 3, "C11/never-remove-heard: a successor that was heard is not removed");
+    kani::cover!(r.outcome == 0 && tel[0].kind == 1, "cover: short confirmation heard after the pass");
+    kani::cover!(r.outcome == 2, "cover: token comes straight back");
+}
+
+l2_harness! {
+    #[kani::unwind(5)]
+    fn l2_check_token_pass() { step_check_token_pass(false) }
+}
+
+l2_harness! {
+    #[kani::unwind(5)]
+    fn l2_check_token_pass_log() { step_check_token_pass(true) }
 }
